@@ -297,6 +297,7 @@ func checkC06(c *Check) {
 	})
 	c.timerDiscipline("C06.3 nil-timers")
 	c.configuredHoldTimeProvenance("C06.5 configured-hold-time")
+	c.cleanupContract("C06.4 expiry-closes-connection")
 }
 
 // configuredHoldTimeProvenance: the locally configured hold time that takes
